@@ -57,6 +57,7 @@ func runC19(r *fw.Run, p *fw.Program) {
 	c.ruleDir()
 	c.ruleSkip()
 	c.ruleAccept()
+	c.ruleStart()
 	c.ruleEndpoint()
 	c.ruleDefrag()
 	c.ruleLink()
@@ -1213,6 +1214,50 @@ func (c *c19) stickyOr(m *c19sg, st *ssa.Store, field string, src ssa.Value) str
 // ---------------------------------------------------------------------------
 // C19.accept
 
+// errFromOptCheck: v is the error of gopacket's TCPOptionCheck.Accept, possibly handed through fq
+// helpers that return it unchanged (or nil).
+func (c *c19) errFromOptCheck(v ssa.Value, d int) bool {
+	if d > 4 {
+		return false
+	}
+	switch x := c19strip(v).(type) {
+	case *ssa.Phi:
+		for _, e := range x.Edges {
+			if k, ok := e.(*ssa.Const); ok && k.Value == nil {
+				continue
+			}
+			if !c.errFromOptCheck(e, d+1) {
+				return false
+			}
+		}
+		return len(x.Edges) > 0
+	case *ssa.Call:
+		cc := x.Common()
+		if cc.IsInvoke() {
+			return false
+		}
+		if strings.HasSuffix(c19calleeName(cc), "gopacket/reassembly.TCPOptionCheck).Accept") {
+			return true
+		}
+		f := cc.StaticCallee()
+		if f == nil || !fw.InFq(f) || f.Blocks == nil || f.Signature.Results().Len() != 1 {
+			return false
+		}
+		n := 0
+		for _, ret := range returnsOf(f) {
+			if k, ok := ret.Results[0].(*ssa.Const); ok && k.Value == nil {
+				continue
+			}
+			if !c.errFromOptCheck(ret.Results[0], d+1) {
+				return false
+			}
+			n++
+		}
+		return n > 0
+	}
+	return false
+}
+
 func (c *c19) ruleAccept() {
 	ru := c.r.Rule("C19.accept", "Accept admits a segment exactly when the connection FSM (and the optional option checker) accept it, passing the segment's own direction; ReassemblyComplete keeps the connection", 4)
 	fn := getFn(ru, c.p, "(*"+c19FD+".TCPConnection).Accept")
@@ -1248,7 +1293,7 @@ func (c *c19) ruleAccept() {
 						}
 					} else if bo, ok := cd.v.(*ssa.BinOp); ok && bo.Op == token.NEQ && cd.t {
 						// err != nil from the option checker
-						if e, ok := bo.X.(*ssa.Call); ok && strings.HasSuffix(c19calleeName(e.Common()), "TCPOptionCheck).Accept") {
+						if c.errFromOptCheck(bo.X, 0) {
 							other = true
 						}
 					}
